@@ -131,14 +131,21 @@ def build_unit(unit, repo, workdir):
     provs = []
     text = unit.template
     fn_texts = {}
+    blk_texts = {}
     for fn in unit.functions:
         t, p = extract_fn(repo, fn, cache, dropped)
         provs.append(p)
         fn_texts[fn.name] = t
+    for blk in unit.blocks:
+        t, p = extract_block(repo, blk, cache, dropped)
+        provs.append(p)
+        blk_texts[blk.name] = t
     if getattr(unit, 'gen', None):
         # mechanical second pass over the extracted texts (e.g. call sites -> ghost reads, DESIGN R6/R7);
         # returns {placeholder name: generated text}; may rewrite fn_texts in place; raises ExtractionBreak
-        for k, v in unit.gen(fn_texts).items():
+        import inspect
+        res = unit.gen(fn_texts, blk_texts) if len(inspect.signature(unit.gen).parameters) >= 2 else unit.gen(fn_texts)
+        for k, v in res.items():
             key = '@@GEN %s@@' % k
             if key not in text:
                 raise X.ExtractionBreak('template of %s lacks %s' % (unit.name, key))
@@ -149,12 +156,12 @@ def build_unit(unit, repo, workdir):
             raise X.ExtractionBreak('template of %s lacks %s' % (unit.name, key))
         text = text.replace(key, fn_texts[fn.name])
     for blk in unit.blocks:
-        t, p = extract_block(repo, blk, cache, dropped)
-        provs.append(p)
         key = '@@BLOCK %s@@' % blk.name
         if key not in text:
+            if getattr(blk, 'hidden', False):
+                continue
             raise X.ExtractionBreak('template of %s lacks %s' % (unit.name, key))
-        text = text.replace(key, t)
+        text = text.replace(key, blk_texts[blk.name])
     if '@@' in text:
         raise X.ExtractionBreak('unexpanded placeholder in template of %s' % unit.name)
     path = os.path.join(workdir, unit.name + '.c')
@@ -191,10 +198,18 @@ def classify(prop_name, desc):
     return cls
 
 
-def clause_label(clines, ln):
+def clause_label(clines, ln, loop=False):
     """Label of the contract clause that contains line ln of the unit's C file:
-    the /* comment */ that opens the clause if there is one, else its text."""
+    the /* comment */ that opens the clause if there is one, else its text.
+    Loop obligations are reported at the loop head; their clauses follow it."""
     k = ln - 1
+    if loop:
+        for i in range(k, min(len(clines), k + 8)):
+            m = re.search(r'__CPROVER_loop_invariant\s*\(\s*/\*(.*?)\*/', clines[i])
+            if m:
+                return m.group(1).strip()
+            if i > k and re.search(r'[{;]\s*$', clines[i]) and '__CPROVER' not in clines[i]:
+                break
     lo = max(0, k - 8)
     start = k
     for i in range(k, lo - 1, -1):
@@ -263,7 +278,7 @@ def run_job(unit, job, cpath, workdir, tier):
             r.reason = 'goto-instrument failed: ' + (err + out)[-2500:]
             return r
         cur = gi
-    cmd = ['cbmc', cur] + BASE_FLAGS + ['--json-ui', '--verbosity', '6']
+    cmd = ['cbmc', cur] + BASE_FLAGS + ['--drop-unused-functions', '--json-ui', '--verbosity', '6']
     cmd += job.flags
     if job.unwind is not None:
         cmd += ['--unwind', str(job.unwind), '--unwinding-assertions']
@@ -317,7 +332,7 @@ def run_job(unit, job, cpath, workdir, tier):
                                                  'loop_decreases', 'loop_step_unwinding'):
             try:
                 ln = int(o['line'])
-                o['desc'] = o['desc'] + ' :: ' + clause_label(clines, ln)
+                o['desc'] = o['desc'] + ' :: ' + clause_label(clines, ln, loop=o['cls'].startswith('loop_'))
             except Exception:
                 pass
         r.obligations.append(o)
@@ -359,7 +374,7 @@ def run_job(unit, job, cpath, workdir, tier):
 def trace_for(unit, job, cpath_gb, props, workdir, timeout=900):
     """Re-run cbmc with --trace for the failed properties; return
     {prop: {'inputs': {...}, 'raw_steps': n}}"""
-    cmd = ['cbmc', cpath_gb] + BASE_FLAGS + ['--json-ui', '--trace'] + job.flags
+    cmd = ['cbmc', cpath_gb] + BASE_FLAGS + ['--drop-unused-functions', '--json-ui', '--trace'] + job.flags
     if job.unwind is not None:
         cmd += ['--unwind', str(job.unwind), '--unwinding-assertions']
     for p in props:
